@@ -200,7 +200,7 @@ func c11NormaliseDeep(g *c11Gen, v reflect.Value, depth int) {
 			c11NormaliseDeep(g, v.Elem(), depth+1)
 		}
 	case reflect.Slice:
-		if v.Type().Elem().Kind() == reflect.Struct {
+		if k := v.Type().Elem().Kind(); k == reflect.Struct || k == reflect.Interface || k == reflect.Ptr {
 			for i := 0; i < v.Len(); i++ {
 				c11NormaliseDeep(g, v.Index(i), depth+1)
 			}
